@@ -226,7 +226,9 @@ class Model:
     def __init__(self, repo, max_size=3):
         _install_class_state()
         self.it = L.Interp(repo)
+        from .lib_common import extras
         ext = {
+            **extras(L),
             "functools": L.namespace(
                 "functools", update_wrapper=lambda w, f, *a, **k: w,
                 wraps=lambda f: (lambda w: w)),
